@@ -19,7 +19,7 @@ func init() {
 			" setGlobal is only used for the interpreter's $-names; every pushed frame is one deeper than its parent; control-flow signals are never rebuilt into other errors; the return slot is written by the return arm and read by callFunction only." +
 			" The list of evaluated argument expressions is made per call and not kept." +
 			" The program's functions are installed after the runtime functions; loops pass a return signal through." +
-			" The bindings of a match case are stored into the frame pushed for that match.",
+			" The bindings of a match case are stored into the frame pushed for that match. A name is looked up in the current frame first and then in each enclosing frame in turn, whatever the name looks like.",
 		notDecided: "value semantics of return beyond the binding rule, behaviour of recursion as such.",
 	})
 }
@@ -239,6 +239,62 @@ func c08R2(c *Ctx, m *frameModel) {
 	if gv == nil {
 		c.undecided("R2", "getVariable", "", "anchor (*Evaluator).getVariable not found")
 		return
+	}
+	variableLookupWalk(c, "R2", gv)
+}
+
+// variableLookupWalk: a name is looked up in the current frame first and then in each enclosing
+// frame in turn, whatever the name looks like: every frame whose variable table getVariable reads is
+// Evaluator.stackTop or the parent of the frame read before it. A walk that starts somewhere else for
+// some names (at the root frame for names with a `$` prefix, say) does not see a binding of that name
+// in a match scope or a call frame.
+func variableLookupWalk(c *Ctx, rule string, gv *ssa.Function) {
+	p := c.P
+	n := 0
+	allInstrs(gv, func(in ssa.Instruction) {
+		lk, ok := in.(*ssa.Lookup)
+		if !ok {
+			return
+		}
+		sf, ok := loadedField(lk.X)
+		if !ok || !isFrameLocals(sf) {
+			return
+		}
+		n++
+		base := stripLoads(sf.Base)
+		var bad []string
+		seen := map[ssa.Value]bool{}
+		var leaves func(v ssa.Value)
+		leaves = func(v ssa.Value) {
+			v = stripLoads(v)
+			if seen[v] {
+				return
+			}
+			seen[v] = true
+			if ph, ok := v.(*ssa.Phi); ok {
+				for _, e := range ph.Edges {
+					leaves(e)
+				}
+				return
+			}
+			if fa, ok := v.(*ssa.FieldAddr); ok {
+				if f, ok := fieldOfAddr(fa); ok {
+					if f.Is("Evaluator", "stackTop") {
+						return
+					}
+					if f.Is("stackFrame", "parent") && stripLoads(f.Base) == base {
+						return
+					}
+				}
+			}
+			bad = append(bad, p.RenderShort(v))
+		}
+		leaves(base)
+		sort.Strings(bad)
+		c.check(len(bad) == 0, rule, "lookup-walk "+p.RenderShort(lk.Index), p.InstrPos(in), "the frames searched are stackTop and, in turn, the parent of the frame searched before", "getVariable also searches the variable table of "+strings.Join(bad, " / ")+": for some names the walk does not start at the current frame or skips frames, so a binding in a match scope or call frame is not seen (and an outer variable of that name is read instead)")
+	})
+	if n == 0 {
+		c.undecided(rule, "lookup-walk", p.Pos(gv.Pos()), "no lookup in a frame's variable table found in getVariable")
 	}
 }
 
